@@ -8,8 +8,11 @@ from harness.descr import (ty_src, universe_src, universe_coq, data_json, data_u
 C_MODEL = ("(fun c : " + G.CASE_TYPE + " => let '(u, o, root, t, d, ob) := c in "
            "res_matches (deserialize u o fuel0 root t d) ob)")
 C_SPEC = ("(fun c : " + G.CASE_TYPE + " => let '(u, o, root, t, d, ob) := c in "
-          "if o_coerce o then true else match ob with ICrash _ => true | _ => "
-          "spec_matches_impl (spec_deserialize u o fuel0 root t d) (match ob with IOk v => Some v | _ => None) end)")
+          "if o_coerce o then true else "
+          "(match ob with "
+          "| ICrash _ => true "
+          "| IOk v => spec_check u o root t d (Some v) "
+          "| IErr _ => spec_check u o root t d None end))")
 
 
 class Case:
@@ -60,7 +63,7 @@ def err_kinds(errs):
 
 class Producer:
     def __init__(self, R, n_universes, types_per_u, data_per_t, depth=2, coerce=None, opts_per_case=1,
-                 type_filter=None, make_type=None, make_data=None, make_opts=None, roots=False):
+                 type_filter=None, make_type=None, make_data=None, make_opts=None, roots=False, matrix=0):
         self.R = R
         self.rng = R.rng
         self.cases = []
@@ -72,6 +75,7 @@ class Producer:
         self.make_data = make_data
         self.make_opts = make_opts
         self.roots = roots
+        self.matrix = matrix
         self.hooks = []         # callables (U, case) -> None run while the universe is alive
 
     def add_universe(self, u):
@@ -123,6 +127,22 @@ class Producer:
                     datas.append(d)
                 for d in datas:
                     self.one(U, uidx, u, opts, root, t, d)
+            if self.matrix:
+                for cid in range(len(u["classes"])):
+                    for rep in range(self.matrix):
+                        opts = (self.make_opts or (lambda r: G.gen_opts(r, self.coerce)))(rng)
+                        opts_gen = dict(opts, alias_fn=G.ALIASERS[opts["aliaser"]][0])
+                        t = ("obj", cid)
+                        r = rng.random()
+                        if r < 0.2:
+                            t = ("union", [t, ("none",)])
+                        elif r < 0.35:
+                            t = ("coll", "list", t)
+                        for d in G.object_matrix(rng, u, cid, opts_gen, limit=12):
+                            if t[0] == "coll":
+                                d = [d]
+                            if G.in_fragment(d):
+                                self.one(U, uidx, u, opts, None, t, d, tag="matrix")
             U.close()
         return self.cases
 
